@@ -43,6 +43,10 @@ pub struct ClientCase {
     /// open a local connection right after this attempt was observed (None: no local connection)
     pub local_after_attempt: Option<u8>,
     pub local_delay_ms: u16,
+    /// datagrams sent to the client's UDP remote right after the first connection attempt was seen (for scripts that start with
+    /// a failure: while the tunnel is down and nobody drains the client's datagram queue)
+    #[serde(default)]
+    pub udp_burst: u16,
 }
 
 pub fn rt() -> &'static tokio::runtime::Runtime {
@@ -221,9 +225,16 @@ pub async fn run_client_case(c: &ClientCase) -> Result<RunOut, String> {
     let server = tokio::spawn(fake_server(listener, c.script.clone(), obs.clone(), t0));
     let uds = tmp_dir().join(format!("c19-{}-{}.sock", std::process::id(), UNIQ.fetch_add(1, Ordering::Relaxed)));
     let _ = std::fs::remove_file(&uds);
+    let udp_port = {
+        let s = tokio::net::UdpSocket::bind("127.0.0.1:0").await.map_err(|e| format!("udp bind: {e}"))?;
+        s.local_addr().map_err(|e| e.to_string())?.port()
+    };
     let args: &'static ClientArgs = Box::leak(Box::new(ClientArgs {
         server: ServerUrl::from_str(&format!("ws://127.0.0.1:{port}/ws")).map_err(|e| format!("url: {e}"))?,
-        remote: vec![Remote { local_addr: LocalSpec::DomainSocket(uds.clone()), remote_addr: RemoteSpec::Inet(("echo.invalid".to_string(), 7)), protocol: Protocol::Tcp }],
+        remote: vec![
+            Remote { local_addr: LocalSpec::DomainSocket(uds.clone()), remote_addr: RemoteSpec::Inet(("echo.invalid".to_string(), 7)), protocol: Protocol::Tcp },
+            Remote { local_addr: LocalSpec::Inet(("127.0.0.1".to_string(), udp_port)), remote_addr: RemoteSpec::Inet(("echo.invalid".to_string(), 7)), protocol: Protocol::Udp },
+        ],
         keepalive: OptionalDuration::NONE,
         keepalive_timeout: OptionalDuration::NONE,
         max_retry_count: c.max_retry_count,
@@ -238,6 +249,29 @@ pub async fn run_client_case(c: &ClientCase) -> Result<RunOut, String> {
         let r = client_main_inner(args, hr, stream_rx, dgram_rx).await;
         (t0.elapsed().as_millis() as u64, match r { Ok(()) => "Ok".to_string(), Err(e) => format!("{e:?}") })
     });
+    // datagrams into the UDP remote as soon as the first attempt has been seen
+    if c.udp_burst > 0 {
+        let (obs3, n) = (obs.clone(), c.udp_burst);
+        tokio::spawn(async move {
+            loop {
+                if !obs3.lock().unwrap().attempts.is_empty() {
+                    break;
+                }
+                if t0.elapsed() > Duration::from_secs(30) {
+                    return;
+                }
+                tokio::time::sleep(Duration::from_millis(2)).await;
+            }
+            let Ok(sock) = tokio::net::UdpSocket::bind("127.0.0.1:0").await else { return };
+            for k in 0..n {
+                // (the listener may not be bound yet in the very first milliseconds: a lost datagram is fine here)
+                let _ = sock.send_to(&k.to_be_bytes(), ("127.0.0.1", udp_port)).await;
+                if k % 32 == 31 {
+                    tokio::time::sleep(Duration::from_millis(1)).await;
+                }
+            }
+        });
+    }
     // local connection
     let want_local = c.local_after_attempt;
     let local_delay = c.local_delay_ms as u64;
@@ -520,34 +554,34 @@ fn attempt() -> impl Strategy<Value = Attempt> {
 fn client_case() -> impl Strategy<Value = ClientCase> {
     prop_oneof![
         // reconnect scripts ending in a healthy server, with a local connection at some point
-        6 => (prop::collection::vec(attempt(), 0..5), 200u64..1000, prop_oneof![Just(0u32), 4u32..8], prop::option::weighted(0.8, 0u8..5), 0u16..300).prop_map(|(mut script, mri, mrc, la, ld)| {
+        6 => (prop::collection::vec(attempt(), 0..5), 200u64..1000, prop_oneof![Just(0u32), 4u32..8], prop::option::weighted(0.8, 0u8..5), 0u16..300, prop_oneof![3 => Just(0u16), 1 => Just(10u16), 1 => Just(70u16), 1 => Just(300u16)]).prop_map(|(mut script, mri, mrc, la, ld, burst)| {
             // keep consecutive failures below the limit so that the healthy server is reached
             if mrc != 0 {
                 script.truncate(3);
             }
             let la = la.map(|x| x.min(script.len() as u8));
             script.push(Attempt::Healthy);
-            ClientCase { script, max_retry_count: mrc, max_retry_interval: mri, local_after_attempt: la, local_delay_ms: ld }
+            ClientCase { script, max_retry_count: mrc, max_retry_interval: mri, local_after_attempt: la, local_delay_ms: ld, udp_burst: burst }
         }),
         // a stalled stream request: handshake, then silence; the local connection must be served by the next connection
-        1 => (200u64..1000, 0u16..200).prop_map(|(mri, ld)| ClientCase { script: vec![Attempt::HandshakeThenSilent, Attempt::Healthy], max_retry_count: 0, max_retry_interval: mri, local_after_attempt: Some(0), local_delay_ms: ld }),
+        1 => (200u64..1000, 0u16..200).prop_map(|(mri, ld)| ClientCase { script: vec![Attempt::HandshakeThenSilent, Attempt::Healthy], max_retry_count: 0, max_retry_interval: mri, local_after_attempt: Some(0), local_delay_ms: ld, udp_burst: 0 }),
         // a stream request is pending (never answered) when the connection is dropped: it must be parked and served by the next connection
-        2 => (200u64..1000, 30u16..400, 0u16..20).prop_map(|(mri, d, ld)| ClientCase { script: vec![Attempt::SilentThenDrop(d), Attempt::Healthy], max_retry_count: 0, max_retry_interval: mri, local_after_attempt: Some(0), local_delay_ms: ld }),
+        2 => (200u64..1000, 30u16..400, 0u16..20).prop_map(|(mri, d, ld)| ClientCase { script: vec![Attempt::SilentThenDrop(d), Attempt::Healthy], max_retry_count: 0, max_retry_interval: mri, local_after_attempt: Some(0), local_delay_ms: ld, udp_burst: 0 }),
         // giving up after max_retry_count
         2 => (1u32..=4, 200u64..700, prop::bool::weighted(0.2)).prop_map(|(mrc, mri, stall)| {
             let mut script = vec![Attempt::AcceptAndDrop; mrc as usize + 2];
             if stall {
                 script[0] = Attempt::AcceptAndStall;
             }
-            ClientCase { script, max_retry_count: mrc, max_retry_interval: mri, local_after_attempt: None, local_delay_ms: 0 }
+            ClientCase { script, max_retry_count: mrc, max_retry_interval: mri, local_after_attempt: None, local_delay_ms: 0, udp_burst: 0 }
         }),
         // never giving up with max_retry_count = 0
-        1 => (200u64..500).prop_map(|mri| ClientCase { script: vec![Attempt::AcceptAndDrop; 6], max_retry_count: 0, max_retry_interval: mri, local_after_attempt: None, local_delay_ms: 0 }),
+        1 => (200u64..500).prop_map(|mri| ClientCase { script: vec![Attempt::AcceptAndDrop; 6], max_retry_count: 0, max_retry_interval: mri, local_after_attempt: None, local_delay_ms: 0, udp_burst: 0 }),
         // non-retryable answer
         1 => (prop::collection::vec(Just(Attempt::AcceptAndDrop), 0..3), 200u64..800).prop_map(|(mut script, mri)| {
             script.push(Attempt::Http403);
             script.push(Attempt::Healthy);
-            ClientCase { script, max_retry_count: 0, max_retry_interval: mri, local_after_attempt: None, local_delay_ms: 0 }
+            ClientCase { script, max_retry_count: 0, max_retry_interval: mri, local_after_attempt: None, local_delay_ms: 0, udp_burst: 0 }
         }),
     ]
 }
@@ -555,7 +589,7 @@ fn client_case() -> impl Strategy<Value = ClientCase> {
 pub fn run(ctx: &Ctx, rep: &mut Report) {
     rep.rule = "G1: Backoff::new(initial,max,mult,max_count) over all small tuples (initial,max in 0..6 units, mult 0..3, max_count 0..4) x all advance/reset sequences of length <= 8 (exhaustive) + random larger, against the closed form min(initial*mult^k, max). \
                 G2: the real client (client_main_inner, Unix-socket TCP remote) against a scripted fake server on loopback: per connection attempt {accept and drop, accept and stall the upgrade, 403, serve then orderly Close after d ms, serve then abrupt drop after d ms, handshake then silence, handshake then silence then drop after d ms, healthy}, max_retry_count 0..7, max_retry_interval 200..1000 ms (1600/3200 in the directed reset-after-success family), \
-                handshake/channel timeout 1 s, a local connection opened at a generated moment. Oracle: gap between a visible failure and the next attempt >= the reference delay (hard) and <= delay + 0.3 s (confirmed by re-run), shortest delay again after any success, a new attempt after orderly Close / drop / stall, exactly max_retry_count+1 attempts then MaxRetryCountReached (never for 0), immediate end on the non-retryable answer, \
+                handshake/channel timeout 1 s, a local connection opened at a generated moment, 0/10/70/300 datagrams sent into the client's UDP remote right after the first attempt (while disconnected when the script starts with a failure). Oracle: gap between a visible failure and the next attempt >= the reference delay (hard) and <= delay + 0.3 s (confirmed by re-run), shortest delay again after any success, a new attempt after orderly Close / drop / stall, exactly max_retry_count+1 attempts then MaxRetryCountReached (never for 0), immediate end on the non-retryable answer, \
                 the local connection is echoed through the next successful connection. Non-trivial = a script with >= 2 failures and a success, or a local connection made while disconnected. Distinct = distinct case value."
         .into();
     rep.assumptions = vec![
@@ -576,7 +610,7 @@ pub fn run(ctx: &Ctx, rep: &mut Report) {
         |i| {
             let served = if i % 2 == 0 { Attempt::ServeThenClose(40 + 20 * (i as u16 / 4)) } else { Attempt::ServeThenDrop(40 + 20 * (i as u16 / 4)) };
             let mri = if (i / 2) % 2 == 0 { 3200 } else { 1600 };
-            ClientCase { script: vec![Attempt::AcceptAndDrop, Attempt::AcceptAndDrop, Attempt::AcceptAndDrop, served, Attempt::AcceptAndDrop, Attempt::Healthy], max_retry_count: 0, max_retry_interval: mri, local_after_attempt: Some(4), local_delay_ms: 10 }
+            ClientCase { script: vec![Attempt::AcceptAndDrop, Attempt::AcceptAndDrop, Attempt::AcceptAndDrop, served, Attempt::AcceptAndDrop, Attempt::Healthy], max_retry_count: 0, max_retry_interval: mri, local_after_attempt: Some(4), local_delay_ms: 10, udp_burst: if i % 2 == 0 { 200 } else { 0 } }
         },
         check,
     );
